@@ -270,13 +270,14 @@ def build(case):
             outs, srcs, t = [lam, Q], [x], 1e-8
         return Net(pym.Network(mods), srcs, outs, designs, t, labels + [f"dense:{kind}"])
     if T == "T7":
-        dom = _domain({**o, "dim3": False})
+        dom = pym.DomainDefinition(max(3, o["nx"]), max(3, o["ny"]))
         designs = [rng.uniform(0.2, 1.0, dom.nel) for _ in range(4)]
         x, xf, y = S("x", designs[0].copy()), S("xf"), S("y")
         mods = [pym.FilterConv(x, xf, dom, radius=1.3)]
         kw = {}
         if o["agg_opt"] == "active":
-            kw["active_set"] = pym.AggActiveSet(lower_rel=0.1, upper_rel=0.95, lower_amt=0.1, upper_amt=0.9)
+            # removes the int(0.12 n) lowest and highest entries (n >= 9): never empty, whatever the ties
+            kw["active_set"] = pym.AggActiveSet(lower_amt=0.12, upper_amt=0.88)
         elif o["agg_opt"] == "undamped":
             kw["scaling"] = pym.AggScaling("max", damping=0.0)
         if o["agg"] == "pnorm":
